@@ -114,10 +114,46 @@ CHECKS.update({
              "gating, one-time defaults, closures through builtins, anything needing a compiled program.",
         ref="DESIGN.md 4 C03"),
 })
+CHECKS.update({
+    "C06": dict(
+        engine="K-crate",
+        technique="bounded model checking (Kani/CBMC) of the error-handling and short-circuit natives through their real registration with a recording evaluator",
+        text="The natives if, if_error, is_error, and, or are obtained from their real add_* functions and called with every combination of "
+             "value / error-value arguments and tail flag; a recording stub of eval observes which arguments are evaluated, in which order "
+             "and with which tail flag: an error condition / first operand propagates and nothing else is evaluated; only the selected "
+             "branch is evaluated, exactly once; is_error inspects without propagating; the documented short circuits skip their argument.",
+        note="Trusted: Kani/CBMC and the stubs listed in the evidence (restricted evaluator, registration capture, leak-instead-of-drop). "
+             "Outside: propagation through user-function calls and construction inside RuntimeScope::eval, violations through generator "
+             "adaptors, collection insertion natives (sequences behind Rc<dyn> are not explorable), message-filtered handlers.",
+        ref="DESIGN.md 9"),
+    "C15": dict(
+        engine="K-crate",
+        technique="bounded model checking (Kani/CBMC) of XSequence::len/get on Range and of index normalisation, on local (not Rc'd) representations",
+        text="For ALL i64 start/end and steps from {1, 2, 7, -1, -3, i64::MAX}: len(Range) = ceil(distance/|step|) without overflow and "
+             "Range[i] = start + i*step; value_to_idx for arrays of <= 3 elements and the infinite Count with an ARBITRARY integer index "
+             "(Short or Long, |v| < 2^100): the normalised index or an error value, never a crash.",
+        note="Trusted: Kani/CBMC, bigint model. Outside: every representation behind Rc<dyn XNativeValue> (Map, Zip, Chain, Slice), the "
+             "natives that receive sequences as values (get, push, insert, pop, set, swap...), prelude functions, sort.",
+        ref="DESIGN.md 9"),
+    "C16": dict(
+        engine="K-crate + K-unit slice",
+        technique="bounded model checking (Kani/CBMC) of XGenerator::slice's merge arithmetic on symbolic windows and of the Slice iterator arm (verbatim slice)",
+        text="take/skip on generators are built from two pieces, both decided: (1) XGenerator::slice applied to a plain generator or to an "
+             "existing Slice with ANY windows/amounts <= 1000 yields a Slice flattened onto the source whose window is exactly the one the "
+             "pipeline denotes; (2) the iterator arm of Slice(gen, start, end), copied verbatim from generators.rs, yields exactly elements "
+             "start..min(end, len) of the inner stream, identically on two consumptions, for inner streams <= 6.",
+        note="Trusted: Kani/CBMC, the slice's shim environment. Outside: the take/skip natives and public consumption paths themselves "
+             "(generators behind Rc<dyn> are not explorable), all adaptors with user functions, chain/zip/product, laziness.",
+        ref="DESIGN.md 9"),
+})
 NA = {
+    "C01": "whole-program soundness needs the parser and the evaluator on symbolic programs; the local kernels (parameter binding in from_template, call typing) sit inside functions whose error paths drop half-built scopes/values, whose recursive drop glue CBMC does not finish (DESIGN.md 9.2); panics of natives found on the way are reported and fixed under the property whose harness reached them",
+    "C05": "resolve_overload lives in CompilationScope (scope tables, XExpr construction, dynamic factories): every harness through it explores the recursive clone/drop glue of XExpr/XType and did not finish; no slice isolates the ranking without rewriting it (DESIGN.md 9.2)",
+    "C10": "bounded work of whole builtins/pipelines needs the natives that iterate sequences/generators behind Rc<dyn XNativeValue>, which CBMC does not finish (DESIGN.md 9.2); the search budget itself is decided under C08",
+    "C17": "XMapping/XSet natives receive mappings as Rc<dyn XNativeValue> values and iterate bucket maps; no harness through them finished within the thorough cap (DESIGN.md 9.2)",
     "C02": "needs the pest parser and whole-program evaluation against a reference evaluator; neither can be encoded for CBMC/SMT here (DESIGN.md 4 C02)",
 }
-PENDING = ["C01", "C04", "C05", "C06", "C10", "C15", "C16", "C17"]
+PENDING = ["C04"]
 
 
 def main():
